@@ -19,6 +19,7 @@ extern parsec_taskpool_t *vf_prog_new(int i, parsec_data_collection_t *D);
 extern void vf_prog_free(int i, parsec_taskpool_t *tp);
 
 int vf_ts = 1, vf_nk = 64, vf_world = 1, vf_rank = 0;
+int vf_mb = 0;
 parsec_datatype_t vf_tile_dtt;
 volatile uint64_t vf_e1_stamp_ctr = 0;
 
@@ -110,6 +111,33 @@ void vf_e1_write(void *ptr, int64_t v) {
     for (int i = 0; i < vf_ts; i++) t[i] = v + (int64_t)i * 0x9E37;
 }
 
+/* ---------- region mode (typed dependencies, C18) ---------- */
+typedef struct { int32_t tp, cls, p[VF_MAXP], flow, kind, inv; int64_t v[3]; int32_t ok[3], n[3]; uint64_t ptr, stamp; } vf_reg_t;
+#define MAXREG (1 << 17)
+static vf_reg_t *regs; static volatile int nreg = 0;
+static void vf_parts(const int64_t *t, int64_t v[3], int32_t ok[3], int32_t n[3]) {
+    for (int q = 0; q < 3; q++) { v[q] = 0; ok[q] = 1; n[q] = 0; }
+    for (int c = 0; c < vf_mb; c++) for (int r = 0; r < vf_mb; r++) {
+        int q = r > c ? 0 : (r == c ? 1 : 2); int64_t i = (int64_t)c * vf_mb + r; int64_t val = t[i] - i * 0x9E37;
+        if (n[q] == 0) v[q] = val; else if (val != v[q]) ok[q] = 0;
+        n[q]++;
+    }
+}
+int64_t vf_e1_read_reg(const void *ptr, vf_rec_t *r, int flow, int kind) {
+    if (!ptr) return -1;
+    const int64_t *t = (const int64_t *)ptr;
+    if (vf_mb > 0 && regs) {
+        int i = __sync_fetch_and_add(&nreg, 1);
+        if (i < MAXREG) {
+            vf_reg_t *g = &regs[i];
+            g->tp = r->tp; g->cls = r->cls; for (int k = 0; k < VF_MAXP; k++) g->p[k] = r->p[k];
+            g->flow = flow; g->kind = kind; g->inv = r->invocation; g->ptr = (uint64_t)(uintptr_t)ptr;
+            vf_parts(t, g->v, g->ok, g->n); g->stamp = vf_e1_stamp();
+        }
+    }
+    return t[0];
+}
+
 /* ---------- marks (wait returns, completion callbacks) ---------- */
 typedef struct { int kind, a, b; uint64_t stamp; } mark_t;
 static mark_t marks[65536]; static volatile int nmarks = 0;
@@ -195,6 +223,18 @@ static void dump(void) {
         for (int i = 1; i < vf_ts; i++) if (t[i] != t[0] + (int64_t)i * 0x9E37) bad = 1;
         fprintf(f, "F %d %lld %d\n", k, (long long)t[0], bad);
     }
+    if (vf_mb > 0) {
+        for (int k = 0; k < vf_nk; k++) if (owner[k] == vf_rank) {
+            int64_t v[3]; int32_t ok[3], n[3]; vf_parts(&store[(size_t)k * vf_ts], v, ok, n);
+            fprintf(f, "G %d %lld %d %lld %d %lld %d\n", k, (long long)v[0], n[0] ? ok[0] : -1, (long long)v[1], n[1] ? ok[1] : -1, (long long)v[2], n[2] ? ok[2] : -1);
+        }
+        int nr = nreg < MAXREG ? nreg : MAXREG;
+        for (int i = 0; i < nr; i++) { vf_reg_t *g = &regs[i];
+            fprintf(f, "R %d %d %d %d %d %d %d %d %d %lld %d %lld %d %lld %d %llx %llu\n", g->tp, g->cls, g->p[0], g->p[1], g->p[2], g->p[3], g->flow, g->kind, g->inv,
+                    (long long)g->v[0], g->n[0] ? g->ok[0] : -1, (long long)g->v[1], g->n[1] ? g->ok[1] : -1, (long long)g->v[2], g->n[2] ? g->ok[2] : -1,
+                    (unsigned long long)g->ptr, (unsigned long long)g->stamp); }
+        if (nreg > MAXREG) fprintf(f, "ROVERFLOW %d\n", nreg);
+    }
     int nm = nmarks < 65536 ? nmarks : 65536;
     for (int i = 0; i < nm; i++) fprintf(f, "M %d %d %d %llu\n", marks[i].kind, marks[i].a, marks[i].b, (unsigned long long)marks[i].stamp);
     int ne = nev < MAXEV ? nev : MAXEV;
@@ -231,10 +271,15 @@ int main(int argc, char **argv) {
     int prov;
     { const char *er = getenv("OMPI_COMM_WORLD_RANK"); if (er) vf_rank = atoi(er); }
     pthread_t hb; pthread_create(&hb, NULL, hb_main, NULL);
-    MPI_Init_thread(&argc, &argv, MPI_THREAD_SERIALIZED, &prov);
+    /* --mpimt 1 (C18): initialise MPI with MPI_THREAD_MULTIPLE, which makes parsec reshape in the computing threads */
+    int want_mt = atoi(arg(argc, argv, "--mpimt", "0"));
+    MPI_Init_thread(&argc, &argv, want_mt ? MPI_THREAD_MULTIPLE : MPI_THREAD_SERIALIZED, &prov);
+    if (want_mt && prov < MPI_THREAD_MULTIPLE) { fprintf(stderr, "e1_rt: MPI_THREAD_MULTIPLE not provided\n"); return 3; }
     MPI_Comm_size(MPI_COMM_WORLD, &vf_world); MPI_Comm_rank(MPI_COMM_WORLD, &vf_rank);
     int cores = atoi(arg(argc, argv, "--cores", "2"));
     vf_nk = atoi(arg(argc, argv, "--nk", "64")); vf_ts = atoi(arg(argc, argv, "--ts", "1"));
+    vf_mb = atoi(arg(argc, argv, "--mb", "0"));
+    if (vf_mb > 0) { if (vf_ts != vf_mb * vf_mb) { fprintf(stderr, "e1_rt: --ts must be mb*mb in region mode\n"); return 3; } regs = calloc(MAXREG, sizeof(vf_reg_t)); }
     opt_seed = strtoull(arg(argc, argv, "--seed", "1"), NULL, 0);
     sscanf(arg(argc, argv, "--again", "0:1"), "%d:%d", &again_permille, &again_max); if (again_max < 1) again_max = 1;
     sscanf(arg(argc, argv, "--sleep", "0:200"), "%d:%d", &sleep_permille, &sleep_us); if (sleep_us < 1) sleep_us = 1;
